@@ -57,6 +57,7 @@ def generate(G):
     fwd("sigmoid_2x2", "Sigmoid", [U([2, 2])], "quick", 7, stubs=("exp",), inexact=True)
     fwd("softmax_2x2", "Softmax", [U([2, 2], "D2")], "quick", 9, stubs=("exp",), inexact=True)
     fwd("softmax_3", "Softmax", [U([3], "D2")], "thorough", 9, stubs=("exp",), inexact=True)
+    fwd("softmax_1x2x2", "Softmax", [U([1, 2, 2], "D2")], "quick", 9, stubs=("exp",), inexact=True)
     G.ob("c07_softmax_rows_2x2", "C07", "softmax_rows", "fwd::softmax_rows(s, %s)" % G.leaves([U([2, 2])]), unwind=9, tier="quick",
          stubs=("exp",), skeleton={"dims": [2, 2]}, domains="D4 (exp table)")
     G.ob("c07_softmax_rows_1x3", "C07", "softmax_rows", "fwd::softmax_rows(s, %s)" % G.leaves([U([1, 3])]), unwind=9, tier="thorough",
